@@ -331,12 +331,16 @@ func (a *Authority) isAllowedToSignX509Certificate(cert *x509.Certificate) error
 	if err := a.constraintsEngine.ValidateCertificate(cert); err != nil {
 		return err
 	}
+	a.adminMutex.RLock()
+	defer a.adminMutex.RUnlock()
 	return a.policyEngine.IsX509CertificateAllowed(cert)
 }
 
 // AreSANsAllowed evaluates the provided sans against the
 // authority X.509 policy.
 func (a *Authority) AreSANsAllowed(_ context.Context, sans []string) error {
+	a.adminMutex.RLock()
+	defer a.adminMutex.RUnlock()
 	return a.policyEngine.AreSANsAllowed(sans)
 }
 
